@@ -219,8 +219,13 @@ impl<Effect, Event> Command<Effect, Event> {
         //
         // Note that there is an exception: the task may have used the waker and dropped it,
         // making it ready, rather than abandoned.
+        //
+        // Read the count first: a waker which is used and then dropped on another thread sets
+        // `woken` before its count goes down, so seeing the lower count guarantees seeing the flag
+        let no_other_wakers = Arc::strong_count(&arc_waker) < 2;
+        std::sync::atomic::fence(Ordering::Acquire);
         let task_is_ready = arc_waker.woken.load(Ordering::Acquire);
-        if result == TaskState::Suspended && !task_is_ready && Arc::strong_count(&arc_waker) < 2 {
+        if result == TaskState::Suspended && !task_is_ready && no_other_wakers {
             return TaskState::Cancelled;
         }
 
